@@ -710,3 +710,76 @@ pub fn evidence_json(
         "inconclusive": out.inconclusive,
     })
 }
+
+
+// ---------------------------------------------------------------------------------------------
+// A monitor that found a divergence says so at once (first few per process only): if the process dies
+// afterwards (memory corrupted by the defect that was just observed), the driver still has the observation.
+static NOTED: AtomicU64 = AtomicU64::new(0);
+pub fn note_divergence(tags: &str, what: &str) {
+    if NOTED.fetch_add(1, AO::Relaxed) < 12 {
+        let w: String = what.chars().take(400).collect();
+        eprintln!("DIVERGENCE tags={tags} {}", w.replace('\n', " "));
+    }
+}
+
+// ---------------------------------------------------------------------------------------------
+// Drop accounting across threads: every instance registers in a process-wide table.
+pub mod counted {
+    use std::collections::HashMap;
+    use std::sync::atomic::{AtomicU64, Ordering};
+    use std::sync::Mutex;
+    static NEXT: AtomicU64 = AtomicU64::new(1);
+    static LIVE: Mutex<Option<HashMap<u64, u64>>> = Mutex::new(None);
+    static FAULTS: Mutex<Vec<String>> = Mutex::new(Vec::new());
+
+    /// value with an instance id; construction, clone and drop are recorded per arena
+    #[derive(Debug)]
+    pub struct Counted {
+        pub arena: u64,
+        pub v: u64,
+        id: u64,
+    }
+    fn reg(arena: u64) -> u64 {
+        let id = NEXT.fetch_add(1, Ordering::SeqCst);
+        LIVE.lock().unwrap().get_or_insert_with(HashMap::new).insert(id, arena);
+        id
+    }
+    impl Counted {
+        pub fn new(arena: u64, v: u64) -> Self {
+            Counted { arena, v, id: reg(arena) }
+        }
+    }
+    impl Clone for Counted {
+        fn clone(&self) -> Self {
+            if !LIVE.lock().unwrap().get_or_insert_with(HashMap::new).contains_key(&self.id) {
+                FAULTS.lock().unwrap().push(format!("arena {}: clone of instance {} which was already dropped", self.arena, self.id));
+            }
+            Counted { arena: self.arena, v: self.v, id: reg(self.arena) }
+        }
+    }
+    impl PartialEq for Counted {
+        fn eq(&self, o: &Self) -> bool {
+            self.v == o.v
+        }
+    }
+    impl Drop for Counted {
+        fn drop(&mut self) {
+            if LIVE.lock().unwrap().get_or_insert_with(HashMap::new).remove(&self.id).is_none() {
+                FAULTS.lock().unwrap().push(format!("arena {}: instance {} (value {}) dropped twice", self.arena, self.id, self.v));
+            }
+        }
+    }
+    pub fn new_arena() -> u64 {
+        NEXT.fetch_add(1, Ordering::SeqCst)
+    }
+    /// (instances of the arena still alive, faults recorded for the arena)
+    pub fn finish(arena: u64) -> (usize, Vec<String>) {
+        let live = LIVE.lock().unwrap().get_or_insert_with(HashMap::new).values().filter(|a| **a == arena).count();
+        let tag = format!("arena {arena}:");
+        let mut f = FAULTS.lock().unwrap();
+        let mine: Vec<String> = f.iter().filter(|x| x.starts_with(&tag)).cloned().collect();
+        f.retain(|x| !x.starts_with(&tag));
+        (live, mine)
+    }
+}
